@@ -497,47 +497,65 @@ Qed.
 Definition entry_aux (v : rrv) (e : su_entry) : Z := match e with E_PX _ => px_aux v | _ => 0 end.
 Definition is_pd (e : su_entry) : bool := match e with E_PD _ => true | _ => false end.
 
+Lemma pe_SP s : parse_entry sig_SP s = opt_map (fun a => (E_SP a, 0)) (parse_sp s).
+Proof. reflexivity. Qed.
+Lemma pe_RR s : parse_entry sig_RR s = opt_map (fun a => (E_RR a, 0)) (parse_rr s).
+Proof. reflexivity. Qed.
+Lemma pe_CE s : parse_entry sig_CE s = opt_map (fun a => (E_CE a, 0)) (parse_ce s).
+Proof. reflexivity. Qed.
+Lemma pe_ER s : parse_entry sig_ER s = opt_map (fun a => (E_ER a, 0)) (parse_er s).
+Proof. reflexivity. Qed.
+Lemma pe_ES s : parse_entry sig_ES s = opt_map (fun a => (E_ES a, 0)) (parse_es s).
+Proof. reflexivity. Qed.
+Lemma pe_PN s : parse_entry sig_PN s = opt_map (fun a => (E_PN a, 0)) (parse_pn s).
+Proof. reflexivity. Qed.
+Lemma pe_SL s : parse_entry sig_SL s = opt_map (fun a => (E_SL a, 0)) (parse_sl s).
+Proof. reflexivity. Qed.
+Lemma pe_NM s : parse_entry sig_NM s = opt_map (fun a => (E_NM a, 0)) (parse_nm s).
+Proof. reflexivity. Qed.
+Lemma pe_CL s : parse_entry sig_CL s = opt_map (fun a => (E_CL a, 0)) (parse_link s).
+Proof. reflexivity. Qed.
+Lemma pe_PL s : parse_entry sig_PL s = opt_map (fun a => (E_PL a, 0)) (parse_link s).
+Proof. reflexivity. Qed.
+Lemma pe_TF s : parse_entry sig_TF s = opt_map (fun a => (E_TF a, 0)) (parse_tf s).
+Proof. reflexivity. Qed.
+Lemma pe_SF s : parse_entry sig_SF s = opt_map (fun a => (E_SF a, 0)) (parse_sf s).
+Proof. reflexivity. Qed.
+Lemma pe_PD s : parse_entry sig_PD s = opt_map (fun a => (E_PD a, 0)) (parse_pd s).
+Proof. reflexivity. Qed.
+Lemma pe_AL s : parse_entry sig_AL s = opt_map (fun a => (E_AL a, 0)) (parse_al s).
+Proof. reflexivity. Qed.
+Lemma pe_PX s : parse_entry sig_PX s = opt_map (fun pl => (E_PX (fst pl), snd pl)) (parse_px s).
+Proof. reflexivity. Qed.
+Lemma pe_RE s : parse_entry sig_RE s = opt_map (fun _ => (E_RE, 0)) (parse_bare s).
+Proof. reflexivity. Qed.
+Lemma pe_ST s : parse_entry sig_ST s = opt_map (fun _ => (E_ST, 0)) (parse_bare s).
+Proof. reflexivity. Qed.
+
 Theorem entry_roundtrip v e rest : entry_ok v e = true -> (is_pd e = true -> rest = []) ->
   exists b, rec_entry v e = Some b /\ parse_entry (sig_of e) (b ++ rest) = Some (e, entry_aux v e).
 Proof.
   intros H Hpd. destruct e; cbn [entry_ok] in H; cbn [rec_entry sig_of entry_aux].
-  - destruct (sp_roundtrip skip rest H) as [R P]. eexists; split; [exact R|].
-    change (parse_entry sig_SP ?s) with (opt_map (fun a => (E_SP a, 0)) (parse_sp s)). rewrite P. reflexivity.
-  - destruct (rr_roundtrip fl rest H) as [R P]. eexists; split; [exact R|].
-    change (parse_entry sig_RR ?s) with (opt_map (fun a => (E_RR a, 0)) (parse_rr s)). rewrite P. reflexivity.
-  - destruct (ce_roundtrip c rest H) as [R P]. eexists; split; [exact R|].
-    change (parse_entry sig_CE ?s) with (opt_map (fun a => (E_CE a, 0)) (parse_ce s)). rewrite P. reflexivity.
-  - destruct (px_roundtrip v p rest H) as (l & Hl & R & P). eexists; split; [exact R|].
-    change (parse_entry sig_PX ?s) with (opt_map (fun pl => (E_PX (fst pl), snd pl)) (parse_px s)).
+  - destruct (sp_roundtrip skip rest H) as [R P]. eexists; split; [exact R|]. rewrite pe_SP. rewrite P. reflexivity.
+  - destruct (rr_roundtrip fl rest H) as [R P]. eexists; split; [exact R|]. rewrite pe_RR. rewrite P. reflexivity.
+  - destruct (ce_roundtrip c rest H) as [R P]. eexists; split; [exact R|]. rewrite pe_CE. rewrite P. reflexivity.
+  - destruct (px_roundtrip v p rest H) as (l & Hl & R & P). eexists; split; [exact R|]. rewrite pe_PX.
     rewrite P. unfold px_aux. rewrite Hl. reflexivity.
-  - destruct (er_roundtrip e rest H) as [R P]. eexists; split; [exact R|].
-    change (parse_entry sig_ER ?s) with (opt_map (fun a => (E_ER a, 0)) (parse_er s)). rewrite P. reflexivity.
-  - destruct (es_roundtrip sq rest H) as [R P]. eexists; split; [exact R|].
-    change (parse_entry sig_ES ?s) with (opt_map (fun a => (E_ES a, 0)) (parse_es s)). rewrite P. reflexivity.
-  - destruct (pn_roundtrip p rest H) as [R P]. eexists; split; [exact R|].
-    change (parse_entry sig_PN ?s) with (opt_map (fun a => (E_PN a, 0)) (parse_pn s)). rewrite P. reflexivity.
-  - destruct (sl_roundtrip s rest H) as (R & P & _). eexists; split; [exact R|].
-    change (parse_entry sig_SL ?s) with (opt_map (fun a => (E_SL a, 0)) (parse_sl s)). rewrite P. reflexivity.
-  - destruct (nm_roundtrip n rest H) as [R P]. eexists; split; [exact R|].
-    change (parse_entry sig_NM ?s) with (opt_map (fun a => (E_NM a, 0)) (parse_nm s)). rewrite P. reflexivity.
-  - destruct (link_roundtrip sig_CL bl rest eq_refl H) as [R P]. eexists; split; [exact R|].
-    change (parse_entry sig_CL ?s) with (opt_map (fun a => (E_CL a, 0)) (parse_link s)). rewrite P. reflexivity.
-  - destruct (link_roundtrip sig_PL bl rest eq_refl H) as [R P]. eexists; split; [exact R|].
-    change (parse_entry sig_PL ?s) with (opt_map (fun a => (E_PL a, 0)) (parse_link s)). rewrite P. reflexivity.
-  - eexists; split; [reflexivity|].
-    change (parse_entry sig_RE ?s) with (opt_map (fun _ => (E_RE, 0)) (parse_bare s)).
+  - destruct (er_roundtrip e rest H) as [R P]. eexists; split; [exact R|]. rewrite pe_ER. rewrite P. reflexivity.
+  - destruct (es_roundtrip sq rest H) as [R P]. eexists; split; [exact R|]. rewrite pe_ES. rewrite P. reflexivity.
+  - destruct (pn_roundtrip p rest H) as [R P]. eexists; split; [exact R|]. rewrite pe_PN. rewrite P. reflexivity.
+  - destruct (sl_roundtrip s rest H) as (R & P & _). eexists; split; [exact R|]. rewrite pe_SL. rewrite P. reflexivity.
+  - destruct (nm_roundtrip n rest H) as [R P]. eexists; split; [exact R|]. rewrite pe_NM. rewrite P. reflexivity.
+  - destruct (link_roundtrip sig_CL bl rest eq_refl H) as [R P]. eexists; split; [exact R|]. rewrite pe_CL. rewrite P. reflexivity.
+  - destruct (link_roundtrip sig_PL bl rest eq_refl H) as [R P]. eexists; split; [exact R|]. rewrite pe_PL. rewrite P. reflexivity.
+  - eexists; split; [reflexivity|]. rewrite pe_RE.
     rewrite (bare_roundtrip sig_RE rest eq_refl). reflexivity.
-  - eexists; split; [reflexivity|].
-    change (parse_entry sig_ST ?s) with (opt_map (fun _ => (E_ST, 0)) (parse_bare s)).
+  - eexists; split; [reflexivity|]. rewrite pe_ST.
     rewrite (bare_roundtrip sig_ST rest eq_refl). reflexivity.
-  - destruct (tf_roundtrip t rest H) as (R & P & _). eexists; split; [exact R|].
-    change (parse_entry sig_TF ?s) with (opt_map (fun a => (E_TF a, 0)) (parse_tf s)). rewrite P. reflexivity.
-  - destruct (sf_roundtrip s rest H) as [R P]. eexists; split; [exact R|].
-    change (parse_entry sig_SF ?s) with (opt_map (fun a => (E_SF a, 0)) (parse_sf s)). rewrite P. reflexivity.
-  - rewrite (Hpd eq_refl). destruct (pd_roundtrip padding H) as [R P]. eexists; split; [exact R|].
-    change (parse_entry sig_PD ?s) with (opt_map (fun a => (E_PD a, 0)) (parse_pd s)). rewrite P. reflexivity.
-  - destruct (al_roundtrip a rest H) as (R & P & _). eexists; split; [exact R|].
-    change (parse_entry sig_AL ?s) with (opt_map (fun a => (E_AL a, 0)) (parse_al s)). rewrite P. reflexivity.
+  - destruct (tf_roundtrip t rest H) as (R & P & _). eexists; split; [exact R|]. rewrite pe_TF. rewrite P. reflexivity.
+  - destruct (sf_roundtrip s rest H) as [R P]. eexists; split; [exact R|]. rewrite pe_SF. rewrite P. reflexivity.
+  - rewrite (Hpd eq_refl). destruct (pd_roundtrip padding H) as [R P]. eexists; split; [exact R|]. rewrite pe_PD. rewrite P. reflexivity.
+  - destruct (al_roundtrip a rest H) as (R & P & _). eexists; split; [exact R|]. rewrite pe_AL. rewrite P. reflexivity.
 Qed.
 
 (* record() = signature ++ [its own length; 1] ++ payload; the length is the class's static length()
